@@ -47,6 +47,20 @@ Workloads
             classic - BR/EDR remote feature / name / version reads and role switches by the initiator and by the
             acceptor, again after reconnection in the same or the other direction, finally a feature read whose
             request is lost while the ACL connection goes away
+  hostfault the hand-over of a command to the next layer FAILS: the host's sink (or its snooper) raises synchronously, or the
+            packet is silently lost (callers then use a response timeout), for 1-3 consecutive commands at positions spread over
+            a history issued by 1-16 concurrent callers, six exception types: the caller whose hand-over failed is released
+            (exception), every other caller gets the response with its own opcode, later commands from every task are handed
+            over and answered, one command outstanding at a time - judged on what the controller side actually received
+  hostreset one task calls Host.reset() while 1-5 other tasks have commands outstanding / queued (delayed pipes)
+  pair      stateful command pairs, UNUSUAL BUT LEGAL parameter octets: Write_Local_Name (non-UTF-8 octets, 0x00 inside, 248
+            octets without terminator, multi-octet characters cut at the end of the field, empty, short parameter) followed
+            by Read_Local_Name on the same host and by a Remote Name Request of ANOTHER device over the link (concluded by
+            exactly one Remote Name Request Complete); 30 write/set commands (class of device, page timeout, scan enable,
+            event masks, host support bits, random address, default data length / PHY, filter accept / resolving list, ...)
+            with all-zero / all-one / random fields followed by the commands that read the stored value; advertising and
+            scan response data with arbitrary octets read by a scanning peer. Each command answered exactly once; values
+            compared (pair/value/*) only where the spec says the read returns what was written and the tree does so
 """
 from __future__ import annotations
 
@@ -64,7 +78,9 @@ RULE = ('advstate: one per (set states, command sequence); hist: one per (family
         'cig: one per (configuration history, CIS subsets, command grouping); train: one per (data kinds, handles, '
         'operation sequences, interleaving); sweep: one case per (command class | unregistered opcode, controller state, parameter seed), non-trivial = '
         'the controller produced or should have produced a reply, distinct = (opcode, state, parameter bytes); host: '
-        'one per (task count, command mix, delay); proc: one per (procedure, scenario)')
+        'one per (task count, command mix, delay); proc: one per (procedure, scenario); hostfault: one per (mode, task count, '
+        'fault position octile, consecutive failures, exception type, delay); hostreset: one per (tasks, commands, turns before '
+        'reset, delay) with a command outstanding; pair: one per (write command, parameter octets | name variant, delay)')
 ASSUMPTIONS = [
     'LE create connection to an absent peer legitimately pends until cancelled: only "cancel concludes it" is demanded',
     'the completion event of a procedure is identified by event code (and LE sub-event code) as listed in PROCEDURES',
@@ -82,6 +98,13 @@ ASSUMPTIONS = [
     'is then ended by a Disconnect of either host; a completion event must name the connection handle of its command; '
     'commands that every controller must implement (Reset, Read Buffer Size, Read BD_ADDR, Set Event Mask, ...) are never '
     'removed from a capability set; a BR/EDR connection request is always answered by the peer host',
+    'hostfault: a hand-over that fails hands NOTHING to the controller (the sink raises before it forwards: a transport write '
+    'error); no answer is owed for such a command; its caller may get any exception; a caller that receives TimeoutError was '
+    'released, not hung',
+    'pair: a Write_Local_Name whose octets before the first 0x00 are not UTF-8 may be kept or ignored by the controller: only the '
+    'answers and the conclusion of the name reads are demanded then; the virtual controller does not store class of device, '
+    'page timeout, scan enable for reading (Read_Class_Of_Device returns 0, the others are unimplemented): their values are '
+    'not compared; how the reading host digests a name / advertising report is not judged',
 ]
 MIN_EVENTS = {
     'quick': {'commands_swept': 2000, 'distinct_opcodes_swept': 200, 'pending_procedures_followed': 100,
@@ -98,7 +121,17 @@ MIN_EVENTS = {
               'hist_procedures_by_peripheral_reduced_capabilities': 450, 'hist_procedures_after_reconnection_rounds': 200,
               'hist_faults_mid_procedure': 100, 'hist_cis_created_again': 150, 'hist_cis_created_again_acl_lost_before_accept': 70,
               'hist_acl_created_again': 100, 'hist_classic_histories': 80, 'hist_classic_procedures_by_peripheral': 150,
-              'hist_classic_procedures_by_central': 150, 'hist_classic_faults_mid_procedure': 25},
+              'hist_classic_procedures_by_central': 150, 'hist_classic_faults_mid_procedure': 25,
+              'hostfault_cases': 45, 'hostfault_rounds': 220, 'hostfault_hand_overs_failed': 340,
+              'hostfault_failed_callers_released': 340, 'hostfault_later_commands_answered': 2900,
+              'hostfault_consecutive_failures': 200, 'hostfault_rounds_sink_raises': 75, 'hostfault_rounds_snooper_raises': 75,
+              'hostfault_rounds_sink_loses': 75, 'hostfault_lost_command_caller_timed_out': 110,
+              'hostreset_cases': 60, 'hostreset_with_command_outstanding': 50, 'hostreset_commands_answered': 80,
+              'pair_cases': 80, 'pair_commands': 1700, 'pair_unusual_writes': 500, 'pair_names_written': 230,
+              'pair_names_written_non_utf8': 110, 'pair_names_written_max_length': 50, 'pair_names_written_inner_nul': 40,
+              'pair_names_written_empty': 12, 'pair_reads_after_unusual_write': 600, 'pair_name_reads_answered': 230,
+              'pair_remote_name_requests_concluded': 230, 'pair_value_checks': 220,
+              'pair_advertising_data_read_by_scanner': 40, 'pair_later_commands_answered': 160},
     'thorough': {'commands_swept': 18000, 'distinct_opcodes_swept': 220, 'pending_procedures_followed': 600,
                  'host_commands': 30000, 'own_opcode_checks': 30000, 'proc_cases': 800,
                  'cig_histories': 1600, 'cis_handles_followed': 2500, 'cis_created_after_reconfiguration': 700,
@@ -113,7 +146,17 @@ MIN_EVENTS = {
                  'hist_procedures_by_peripheral_reduced_capabilities': 2700, 'hist_procedures_after_reconnection_rounds': 1200,
                  'hist_faults_mid_procedure': 600, 'hist_cis_created_again': 1100, 'hist_cis_created_again_acl_lost_before_accept': 500,
                  'hist_acl_created_again': 750, 'hist_classic_histories': 650, 'hist_classic_procedures_by_peripheral': 1200,
-                 'hist_classic_procedures_by_central': 1200, 'hist_classic_faults_mid_procedure': 200},
+                 'hist_classic_procedures_by_central': 1200, 'hist_classic_faults_mid_procedure': 200,
+                 'hostfault_cases': 360, 'hostfault_rounds': 2800, 'hostfault_hand_overs_failed': 3500,
+                 'hostfault_failed_callers_released': 3500, 'hostfault_later_commands_answered': 30000,
+                 'hostfault_consecutive_failures': 2000, 'hostfault_rounds_sink_raises': 800, 'hostfault_rounds_snooper_raises': 800,
+                 'hostfault_rounds_sink_loses': 800, 'hostfault_lost_command_caller_timed_out': 1000,
+                 'hostreset_cases': 450, 'hostreset_with_command_outstanding': 350, 'hostreset_commands_answered': 500,
+                 'pair_cases': 600, 'pair_commands': 15000, 'pair_unusual_writes': 4500, 'pair_names_written': 2000,
+                 'pair_names_written_non_utf8': 1000, 'pair_names_written_max_length': 450, 'pair_names_written_inner_nul': 350,
+                 'pair_names_written_empty': 100, 'pair_reads_after_unusual_write': 5000, 'pair_name_reads_answered': 2000,
+                 'pair_remote_name_requests_concluded': 2000, 'pair_value_checks': 1900,
+                 'pair_advertising_data_read_by_scanner': 350, 'pair_later_commands_answered': 1200},
 }
 CASE_TIMEOUT = 600
 
@@ -201,6 +244,21 @@ def plan(tier, seed):
                       'cap': random_capability(rr, [0, 1]), 'seed': seed * 1000003 + i})
     for i in range(100 if tier == 'quick' else 800):
         cases.append({'kind': 'hist', 'family': 'acl', 'cap': random_capability(rr, [0, 1]), 'seed': seed * 1000003 + i})
+    # error paths at the hand-over of a command to the next layer: the sink / the snooper raises, or the packet is lost,
+    # for 1-3 consecutive commands at positions spread over a history issued by 1..16 concurrent callers
+    k = 0
+    for rep in range(5 if tier == 'quick' else 40):
+        for mode in ('sink-raises', 'snooper-raises', 'sink-loses'):
+            for tasks in (1, 2, 3, 4, 8, 16):
+                k += 1
+                cases.append({'kind': 'hostfault', 'mode': mode, 'tasks': tasks, 'rounds': 5 if tier == 'quick' else 8,
+                              'seed': seed * 1000003 + k})
+    # write / read pairs and the peer's name read, unusual but legal parameter octets
+    for i in range(160 if tier == 'quick' else 1200):
+        cases.append({'kind': 'pair', 'steps': 6 if tier == 'quick' else 8, 'name_first': i % 2 == 0, 'seed': seed * 1000003 + i})
+    # Host.reset() by one task while other tasks have commands outstanding
+    for i in range(120 if tier == 'quick' else 900):
+        cases.append({'kind': 'hostreset', 'seed': seed * 1000003 + i})
     return cases
 
 
@@ -2349,8 +2407,684 @@ async def hist_acl(case, r: R):
     r.sample = {'kind': 'hist', 'family': 'acl', 'capabilities': capability, 'history': [list(map(str, h)) for h in hist][:10]}
 
 
+# -----------------------------------------------------------------------------
+# hostfault / hostreset: ERROR PATHS at the hand-over of a command to the next layer
+class FaultySink:
+    """Sits between Host.send_hci_packet and the rig's h2c pipe. Command packets are counted in the order the host tries
+    to hand them over; the ones whose index is planned are NOT handed over: an exception factory -> the write raises
+    synchronously, 'lose' -> the packet silently disappears. `handed` is what the controller side actually received."""
+
+    def __init__(self, host, inner):
+        self.host = host
+        self.inner = inner
+        self.count = 0
+        self.plan = {}
+        self.handed = []      # (index, opcode, command object)
+        self.failed = []      # (index, opcode, command object, exception)
+        self.lost = []        # (index, opcode, command object)
+        self.via_snooper = False
+
+    def decide(self, packet):
+        """None (hand over), 'lose', or an exception instance to raise."""
+        i = self.count
+        self.count += 1
+        op = packet[1] | packet[2] << 8
+        who = self.host.pending_command     # only to label which caller's command this is
+        act = self.plan.pop(i, None)
+        if act == 'lose':
+            self.lost.append((i, op, who))
+            return 'lose'
+        if act is not None:
+            ex = act(f'injected hand-over failure of command #{i} ({op:#06x})')
+            self.failed.append((i, op, who, ex))
+            return ex
+        self.handed.append((i, op, who))
+        return None
+
+    # the sink protocol
+    def on_packet(self, packet):
+        packet = bytes(packet)
+        if packet[0] == 1 and not self.via_snooper:
+            act = self.decide(packet)
+            if act == 'lose':
+                return
+            if act is not None:
+                raise act
+        self.inner.on_packet(packet)
+
+    # the snooper protocol (Host.send_hci_packet calls the snooper before the sink)
+    def snoop(self, packet, direction):
+        if int(direction) == 0 and self.via_snooper and packet[0] == 1:
+            act = self.decide(bytes(packet))
+            if act is not None and act != 'lose':
+                raise act
+
+
+def check_alternation(r, rg, dev, start_b, prefix, ctx):
+    """In the host-boundary log (commands as handed over, responses as delivered): one command outstanding at a time,
+    every command handed over is answered."""
+    outstanding = None
+    for seq, d, direction, pkt, _t in rg.boundary_log[start_b:]:
+        if d != dev:
+            continue
+        if direction == 'h2c' and pkt[0] == 1:
+            op = pkt[1] | pkt[2] << 8
+            r.ev('oracle_evals')
+            if outstanding is not None:
+                r.bad(f'{prefix}/two-outstanding', f'command {op:#06x} handed over while {outstanding:#06x} was unanswered; {ctx}')
+            outstanding = op
+        elif direction == 'c2h' and pkt[0] == 4 and pkt[1] in (0x0E, 0x0F):
+            op = (pkt[4] | pkt[5] << 8) if pkt[1] == 0x0E else (pkt[5] | pkt[6] << 8)
+            if outstanding is not None and op == outstanding:
+                outstanding = None
+            elif op != 0:
+                r.ev('oracle_evals')
+                r.bad(f'{prefix}/unsolicited-response', f'response for {op:#06x} while outstanding={outstanding}; {ctx}')
+    r.ev('oracle_evals')
+    if outstanding is not None:
+        r.bad(f'{prefix}/unanswered-at-quiescence', f'command {outstanding:#06x} was handed over and never answered; {ctx}')
+
+
+def host_command_makers(hci, live):
+    mk = [
+        lambda: hci.HCI_Read_BD_ADDR_Command(),
+        lambda: hci.HCI_Read_Local_Version_Information_Command(),
+        lambda: hci.HCI_Read_Local_Name_Command(),
+        lambda: hci.HCI_LE_Rand_Command(),
+        lambda: hci.HCI_LE_Read_Buffer_Size_Command(),
+        lambda: hci.HCI_Read_Buffer_Size_Command(),
+        lambda: hci.HCI_LE_Read_Local_Supported_Features_Command(),
+        lambda: hci.HCI_Write_Page_Timeout_Command(page_timeout=0x2000),
+        lambda: hci.HCI_Read_Loopback_Mode_Command(),
+        lambda: hci.HCI_Read_Clock_Offset_Command(connection_handle=0x0EFF),   # asynchronous: Command Status
+        lambda: hci.HCI_LE_Set_Random_Address_Command(random_address=hci.Address('E0:E0:E0:E0:E0:E0')),
+    ]
+    if live is not None:
+        mk.append(lambda: hci.HCI_LE_Read_Remote_Features_Command(connection_handle=live))
+        mk.append(lambda: hci.HCI_Read_Remote_Version_Information_Command(connection_handle=live))
+    return mk
+
+
+FAULT_EXCEPTIONS = ('OSError', 'RuntimeError', 'ValueError', 'ConnectionResetError', 'TimeoutError', 'KeyError')
+
+
+async def hostfault_case(case, r: R):
+    import builtins
+    from bumble import hci
+    from vlib import rig as vrig
+    rng = random.Random(case['seed'] ^ 0xFA17)
+    vrig.seed_entropy(case['seed'])
+    delay = rng.choice([0, 1, 3, 8])
+    mode = case['mode']                       # sink-raises | snooper-raises | sink-loses
+    rg = vrig.Rig(2, seed=case['seed'], max_delay=delay)
+    await rg.power_on()
+    live = None
+    if rng.random() < 0.4:
+        cl, _pl = await rg.connect_le(0, 1)
+        live = cl.handle
+    await rg.quiesce()
+    host = rg.hosts[0]
+    sink = FaultySink(host, host.hci_sink)
+    host.set_packet_sink(sink)
+    if mode == 'snooper-raises':
+        sink.via_snooper = True
+        host.snooper = sink
+    makers = host_command_makers(hci, live)
+    ntasks = case['tasks']
+    per = rng.randint(2, 5) if ntasks > 4 else rng.randint(2, 8)
+    total = ntasks * per
+    rounds = case['rounds']
+    timeout = 20 if mode == 'sink-loses' else None
+    r.ev('hostfault_cases')
+    wedged = [False]
+
+    def ctx():
+        return (f'mode={mode} tasks={ntasks} commands/task={per} pipe delay<={delay} faults so far: '
+                f'{[(i, hex(op), type(ex).__name__) for i, op, _c, ex in sink.failed][-4:]} lost: '
+                f'{[(i, hex(op)) for i, op, _c in sink.lost][-4:]}')
+
+    async def call(cmd, phase):
+        """One caller. Returns True when the caller was released (response or exception)."""
+        # (not vloop.vwait: a TimeoutError handed to the caller - the response timeout, or the injected exception - is
+        # a release of the caller, not a hang)
+        task = asyncio.ensure_future(host.send_command(cmd, response_timeout=timeout))
+        done, _pending = await asyncio.wait([task], timeout=120)
+        try:
+            if not done:
+                task.cancel()
+                raise vloop.Hang('still pending after 120 virtual seconds')
+            resp = task.result()
+        except vloop.Hang:
+            wedged[0] = True
+            r.ev('oracle_evals')
+            if any(c is cmd for _i, _o, c, _e in sink.failed) or any(c is cmd for _i, _o, c in sink.lost):
+                r.bad(f'host/{mode}/caller-hang', f'the hand-over of {cmd.name} failed and its caller still waits after 120 '
+                                                  f'virtual s; {ctx()}')
+            elif not any(c is cmd for _i, _o, c in sink.handed):
+                r.bad(f'host/{mode}/later-command-blocked',
+                      f'{cmd.name} ({phase}) was never handed to the controller: its caller still waits after 120 virtual s '
+                      f'(command semaphore locked={host.command_semaphore.locked()}, pending_command='
+                      f'{getattr(host.pending_command, "name", None)}); {ctx()}')
+            else:
+                r.bad(f'host/{mode}/caller-hang-after-hand-over', f'{cmd.name} ({phase}) was handed over, its caller still '
+                                                                  f'waits after 120 virtual s; {ctx()}')
+            return False
+        except Exception as ex:
+            r.ev('oracle_evals')
+            mine = [e for _i, _o, c, e in sink.failed if c is cmd]
+            if mine:
+                r.ev('hostfault_failed_callers_released')
+                if ex is not mine[0]:
+                    r.ev('hostfault_failed_caller_got_other_exception')
+            elif any(c is cmd for _i, _o, c in sink.lost):
+                r.ev('hostfault_failed_callers_released')
+                r.ev('hostfault_lost_command_caller_timed_out')
+            else:
+                r.bad(f'host/{mode}/foreign-exception/{type(ex).__name__}',
+                      f'send_command({cmd.name}) ({phase}) raised {type(ex).__name__}: {ex} although its own hand-over did not '
+                      f'fail; {ctx()}')
+            return True
+        r.ev('oracle_evals', 2)
+        r.ev('own_opcode_checks')
+        r.ev('hostfault_commands_answered')
+        if phase != 'before':
+            r.ev('hostfault_later_commands_answered')
+        if resp.command_opcode != cmd.op_code:
+            r.bad(f'host/{mode}/foreign-response', f'caller of {cmd.name} ({cmd.op_code:#06x}) ({phase}) was handed a response '
+                                                   f'for {resp.command_opcode:#06x}; {ctx()}')
+        if not any(c is cmd for _i, _o, c in sink.handed):
+            r.bad(f'host/{mode}/response-without-hand-over', f'caller of {cmd.name} got a response although its command was '
+                                                             f'never handed to the controller; {ctx()}')
+        return True
+
+    async def worker(w, rnd, n, phase_of):
+        wr = random.Random(case['seed'] * 131 + rnd * 17 + w)
+        for _ in range(n):
+            cmd = wr.choice(makers)()
+            if not await call(cmd, phase_of()):
+                return
+            if wr.random() < 0.3:
+                await asyncio.sleep(0)
+
+    for rnd in range(rounds):
+        # fault position p (relative to this round), k consecutive commands fail, then the sink works again
+        p = (total - 1) * rnd // max(1, rounds - 1) if rounds > 1 else rng.randrange(total)
+        p = min(total - 1, max(0, p + rng.choice([0, 0, 1, -1])))
+        k = rng.choice([1, 1, 1, 2, 3])
+        base = sink.count
+        exc_name = FAULT_EXCEPTIONS[(case['seed'] + rnd) % len(FAULT_EXCEPTIONS)]
+        exc = getattr(builtins, exc_name)
+        n_failed0 = len(sink.failed) + len(sink.lost)
+        for j in range(k):
+            sink.plan[base + p + j] = 'lose' if mode == 'sink-loses' else exc
+        start_b = len(rg.boundary_log)
+        phase_of = lambda: 'before' if len(sink.failed) + len(sink.lost) == n_failed0 else 'after a failed hand-over'
+        tasks = [asyncio.ensure_future(worker(w, rnd, per, phase_of)) for w in range(ntasks)]
+        await asyncio.gather(*tasks)
+        await rg.quiesce()
+        injected = len(sink.failed) + len(sink.lost) - n_failed0
+        r.ev('hostfault_rounds')
+        r.ev('hostfault_hand_overs_failed', injected)
+        if injected:
+            r.ev(f'hostfault_rounds_{mode.replace("-", "_")}')
+            r.sig('hostfault', mode, ntasks, p * 8 // total, k, exc_name, delay)
+            if k > 1:
+                r.ev('hostfault_consecutive_failures', injected)
+        sink.plan.clear()
+        if wedged[0]:
+            break
+        # fresh callers from several tasks: each is served, one at a time
+        tasks = [asyncio.ensure_future(worker(100 + w, rnd, 2, lambda: 'fresh caller after the round')) for w in range(3)]
+        await asyncio.gather(*tasks)
+        await rg.quiesce()
+        check_alternation(r, rg, 0, start_b, f'host/{mode}', ctx())
+        if wedged[0]:
+            break
+        # what the controller received is exactly what the sink let through
+        r.ev('oracle_evals')
+    for where, ex in rg.exceptions:
+        r.ev('hostfault_exceptions_in_stack_not_judged')
+    r.sched.add(rg.schedule_signature)
+    r.evals()
+    r.sample = {'kind': 'hostfault', 'mode': mode, 'tasks': ntasks, 'commands_per_task': per, 'rounds': rounds, 'delay': delay,
+                'failed_hand_overs': [(i, hex(op), type(ex).__name__) for i, op, _c, ex in sink.failed][:6],
+                'lost': [(i, hex(op)) for i, op, _c in sink.lost][:6]}
+
+
+async def hostreset_case(case, r: R):
+    """One task calls Host.reset() (which issues HCI commands itself) while other tasks have commands outstanding /
+    queued: every caller is released with the response to its own command, reset() returns, later commands are served."""
+    from bumble import hci
+    from vlib import rig as vrig
+    rng = random.Random(case['seed'] ^ 0x5E5E7)
+    vrig.seed_entropy(case['seed'])
+    delay = rng.choice([0, 1, 3, 8])
+    rg = vrig.Rig(1, seed=case['seed'], max_delay=delay)
+    await rg.power_on()
+    await rg.quiesce()
+    host = rg.hosts[0]
+    makers = host_command_makers(hci, None)
+    ntasks = rng.choice([1, 1, 2, 3, 5])
+    per = rng.randint(1, 4)
+    turns = rng.choice([0, 1, 2, 3, 5, 8, 13, 21])
+    r.ev('hostreset_cases')
+    state = {}
+    hung = [False]
+
+    def ctx():
+        return (f'{ntasks} task(s) x {per} command(s), pipe delay<={delay}, reset() called {turns} loop turns after the tasks '
+                f'started, with {state.get("outstanding")} outstanding and the command semaphore '
+                f'{"locked" if state.get("locked") else "free"}')
+
+    async def worker(w):
+        wr = random.Random(case['seed'] * 37 + w)
+        for _ in range(per):
+            cmd = wr.choice(makers)()
+            try:
+                resp = await vloop.vwait(host.send_command(cmd), 120)
+            except vloop.Hang:
+                hung[0] = True
+                r.ev('oracle_evals')
+                r.bad('host/reset-while-command-outstanding/caller-hang',
+                      f'caller of {cmd.name} still waits after 120 virtual s (host.ready={host.ready}); {ctx()}')
+                return
+            except Exception as ex:
+                r.bad(f'host/reset-while-command-outstanding/caller-got-exception/{type(ex).__name__}',
+                      f'send_command({cmd.name}) raised {type(ex).__name__}: {ex}; {ctx()}')
+                continue
+            r.ev('oracle_evals')
+            r.ev('own_opcode_checks')
+            r.ev('hostreset_commands_answered')
+            if resp.command_opcode != cmd.op_code:
+                r.bad('host/reset-while-command-outstanding/foreign-response',
+                      f'caller of {cmd.name} was handed a response for {resp.command_opcode:#06x}; {ctx()}')
+
+    async def resetter():
+        for _ in range(turns):
+            await asyncio.sleep(0)
+        state['outstanding'] = getattr(host.pending_command, 'name', None)
+        state['locked'] = host.command_semaphore.locked()
+        if host.pending_command is not None:
+            r.ev('hostreset_with_command_outstanding')
+            r.sig('hostreset', ntasks, per, turns, delay)
+        else:
+            r.ev('hostreset_with_no_command_outstanding')
+        try:
+            await vloop.vwait(host.reset(driver_factory=None), 120)
+            r.ev('hostreset_resets_returned')
+        except vloop.Hang:
+            hung[0] = True
+            r.bad('host/reset-while-command-outstanding/reset-hang', f'reset() still pending after 120 virtual s; {ctx()}')
+        except Exception as ex:
+            r.bad(f'host/reset-while-command-outstanding/reset-raised/{type(ex).__name__}', f'{ex}; {ctx()}')
+        r.ev('oracle_evals')
+
+    start_b = len(rg.boundary_log)
+    tasks = [asyncio.ensure_future(worker(w)) for w in range(ntasks)] + [asyncio.ensure_future(resetter())]
+    await asyncio.gather(*tasks)
+    await rg.quiesce()
+    if not hung[0]:
+        tasks = [asyncio.ensure_future(worker(100 + w)) for w in range(2)]
+        await asyncio.gather(*tasks)
+        await rg.quiesce()
+        check_alternation(r, rg, 0, start_b, 'host/reset-while-command-outstanding', ctx())
+    r.sched.add(rg.schedule_signature)
+    r.evals()
+    r.sample = {'kind': 'hostreset', 'tasks': ntasks, 'commands_per_task': per, 'turns_before_reset': turns, 'delay': delay,
+                'outstanding_at_reset': state.get('outstanding')}
+
+
+# -----------------------------------------------------------------------------
+# pair: a second command (or a peer's procedure) that depends on what an earlier command stored, unusual but legal octets
+def name_variants(rng):
+    """(label, parameter octets of Write_Local_Name)"""
+    def pad(b):
+        return b + bytes(248 - len(b))
+    rnd = bytes(rng.getrandbits(8) for _ in range(248))
+    return [
+        ('empty', bytes(248)),
+        ('ascii-max-length', bytes(rng.randrange(0x20, 0x7F) for _ in range(248))),
+        ('utf8-2-octet-max-length', 'é'.encode() * 124),
+        ('utf8-3-octet-246+2', '€'.encode() * 82 + b'ab'),
+        ('utf8-4-octet-max-length', '\U0001F600'.encode() * 62),
+        ('non-utf8/latin-1', pad(b'Caf\xe9 du March\xe9')),
+        ('non-utf8/ff-max-length', b'\xff' * 248),
+        ('non-utf8/lone-continuation', pad(b'abc\x80def')),
+        ('non-utf8/overlong', pad(b'\xc0\x80x')),
+        ('non-utf8/surrogate', pad(b'\xed\xa0\x80')),
+        ('non-utf8/truncated-2-octet-at-247', b'a' * 247 + b'\xc3'),
+        ('non-utf8/truncated-3-octet-at-246', b'a' * 246 + b'\xe2\x82'),
+        ('inner-nul/then-non-utf8', b'good\x00\xff\xfe' + rnd[:241]),
+        ('inner-nul/then-text', pad(b'ab\x00cd')),
+        ('inner-nul/first-octet', b'\x00' + b'\xff' * 247),
+        ('non-utf8/before-inner-nul', pad(b'\xe9\x00abc')),
+        ('random-octets', rnd),
+        ('random-octets-high', bytes(b | 0x80 for b in rnd)),
+        ('short-parameter/non-utf8', b'Caf\xe9'),
+        ('short-parameter/text', b'short'),
+        ('plain', pad(b'a plain name')),
+    ]
+
+
+def expected_name(param):
+    """The name a Write_Local_Name parameter denotes: the octets before the first 0x00 - when they are UTF-8 (the
+    spec's encoding of the name); None otherwise (what a controller keeps then is not stated)."""
+    name = param[:param.index(0)] if 0 in param else param
+    try:
+        name.decode('utf-8')
+    except UnicodeDecodeError:
+        return None
+    return name
+
+
+def field_octets(rng, size):
+    c = rng.randrange(6)
+    if c == 0:
+        return bytes(size)
+    if c == 1:
+        return b'\xff' * size
+    if c == 2:
+        return (1).to_bytes(size, 'little')
+    if c == 3:
+        return bytes([0x80] * size)
+    return bytes(rng.getrandbits(8) for _ in range(size))
+
+
+# (write command, parameter field sizes, [(read / dependent command, parameter octets or callable(rng))])
+PAIRS = [
+    ('Write_Class_Of_Device', [3], [('Read_Class_Of_Device', b'')]),
+    ('Write_Page_Timeout', [2], [('Read_Page_Timeout', b'')]),
+    ('Write_Scan_Enable', [1], [('Read_Scan_Enable', b'')]),
+    ('Write_Authentication_Enable', [1], [('Read_Authentication_Enable', b'')]),
+    ('Write_Synchronous_Flow_Control_Enable', [1], [('Read_Synchronous_Flow_Control_Enable', b'')]),
+    ('Write_Simple_Pairing_Mode', [1], [('Read_Local_Supported_Features', b''), ('Read_Local_Extended_Features', b'\x00'),
+                                        ('Read_Local_Extended_Features', b'\x01')]),
+    ('Write_Secure_Connections_Host_Support', [1], [('Read_Local_Extended_Features', b'\x01'),
+                                                    ('Read_Local_Extended_Features', b'\x02'),
+                                                    ('Read_Local_Extended_Features', b'\xff')]),
+    ('Write_LE_Host_Support', [1, 1], [('Read_LE_Host_Support', b''), ('Read_Local_Extended_Features', b'\x01'),
+                                       ('Read_Local_Supported_Features', b'')]),
+    ('Set_Event_Mask', [8], [('Read_BD_ADDR', b''), ('Read_Local_Name', b''), ('LE_Rand', b'')]),
+    ('Set_Event_Mask_Page_2', [8], [('Read_BD_ADDR', b''), ('Read_Local_Version_Information', b'')]),
+    ('LE_Set_Event_Mask', [8], [('LE_Rand', b''), ('LE_Read_Buffer_Size', b''), ('LE_Read_Local_Supported_Features', b'')]),
+    ('LE_Set_Random_Address', [6], [('LE_Set_Advertising_Set_Random_Address', lambda g: b'\x00' + field_octets(g, 6)),
+                                    ('LE_Read_Advertising_Physical_Channel_Tx_Power', b'')]),
+    ('LE_Write_Suggested_Default_Data_Length', [2, 2], [('LE_Read_Suggested_Default_Data_Length', b''),
+                                                        ('LE_Read_Maximum_Data_Length', b'')]),
+    ('LE_Set_Default_PHY', [1, 1, 1], [('LE_Read_PHY', lambda g: field_octets(g, 2))]),
+    ('LE_Set_Host_Feature', [1, 1], [('LE_Read_Local_Supported_Features', b''), ('LE_Read_All_Local_Supported_Features', b'')]),
+    ('LE_Set_Address_Resolution_Enable', [1], [('LE_Read_Resolving_List_Size', b'')]),
+    ('LE_Set_Resolvable_Private_Address_Timeout', [2], [('LE_Read_Resolving_List_Size', b'')]),
+    ('LE_Add_Device_To_Filter_Accept_List', [1, 6], [('LE_Read_Filter_Accept_List_Size', b''),
+                                                     ('LE_Clear_Filter_Accept_List', b'')]),
+    ('LE_Add_Device_To_Resolving_List', [1, 6, 16, 16], [('LE_Read_Resolving_List_Size', b''), ('LE_Clear_Resolving_List', b'')]),
+    ('Write_Extended_Inquiry_Response', [1, 240], [('Read_Extended_Inquiry_Response', b'')]),
+    ('Write_Loopback_Mode', [1], [('Read_Loopback_Mode', b'')]),
+    ('Write_Page_Scan_Activity', [2, 2], [('Read_Page_Scan_Activity', b'')]),
+    ('Write_Page_Scan_Type', [1], [('Read_Page_Scan_Type', b'')]),
+    ('Write_Voice_Setting', [2], [('Read_Voice_Setting', b'')]),
+    ('Write_Default_Link_Policy_Settings', [2], [('Read_Default_Link_Policy_Settings', b'')]),
+    ('Write_Connection_Accept_Timeout', [2], [('Read_Connection_Accept_Timeout', b'')]),
+    ('Write_Inquiry_Mode', [1], [('Read_Inquiry_Mode', b'')]),
+    ('Host_Buffer_Size', [2, 1, 2, 2], [('Read_Buffer_Size', b'')]),
+    ('Set_Controller_To_Host_Flow_Control', [1], [('Read_Buffer_Size', b''), ('Read_Synchronous_Flow_Control_Enable', b'')]),
+    ('LE_Set_Default_Subrate', [2, 2, 2, 2, 2], [('LE_Read_Local_Supported_Features', b'')]),
+]
+
+
+def cc_return_parameters(rg, seq):
+    """Return parameters (after the status octet handling is left to the caller) of the Command Complete logged at seq."""
+    pkt = rg.hci_log[seq][3]
+    return pkt[6:] if pkt[1] == 0x0E else None
+
+
+async def pair_issue(r, rg, dev, name, params, role, ctx):
+    """One command, built from its opcode and parameter octets, through the real host of `dev`. Exactly one Command
+    Complete / Status with its opcode leaves the controller and the caller is handed it. Returns (kind, status, seq) |
+    None (violated) | 'skip'."""
+    from bumble import hci
+    op = getattr(hci, f'HCI_{name.upper()}_COMMAND', None)
+    if op is None:
+        r.ev('pair_commands_unknown_to_hci_skipped')
+        return 'skip'
+    pkt = ref.command_packet(op, params)
+    try:
+        cmd = hci.HCI_Packet.from_bytes(pkt)
+        if bytes(cmd) != pkt:
+            r.ev('pair_commands_rewritten_by_host_encoder')
+    except Exception:
+        r.ev('pair_commands_unparseable_by_host_skipped')
+        return 'skip'
+    suffix = {'read': 'after-unusual-write', 'write': 'unusual-parameters', 'later': 'later-command'}[role]
+    mark = len(rg.hci_log)
+    n_exc = len(rg.exceptions)
+    try:
+        resp = await vloop.vwait(rg.hosts[dev].send_command(cmd), 120)
+    except vloop.Hang:
+        resp = None
+    except Exception as ex:
+        r.ev('oracle_evals')
+        r.bad(f'pair/caller-got-exception/{name}/{suffix}', f'send_command({name}) raised {type(ex).__name__}: {ex}; {ctx()}')
+        return None
+    try:
+        await rg.quiesce(max_turns=2000)
+    except vloop.Hang:
+        r.ev('no_quiescence_after_command')
+    r.ev('oracle_evals', 2)
+    r.ev('pair_commands')
+    evs = [e for e in parse_events(rg.hci_log, dev, mark) if e[1] in ('cc', 'cs')]
+    mine = [e for e in evs if e[2] == op]
+    if len(mine) != 1:
+        excs = [f'{w}: {e}' for w, e in rg.exceptions[n_exc:]][-2:]
+        r.bad(f'pair/answer/{"none" if not mine else "multiple"}/{name}/{suffix}',
+              f'{len(mine)} Command Complete/Status events for {name} ({op:#06x}) parameters {params[:24].hex()}'
+              f'{"..." if len(params) > 24 else ""}; exceptions in the stack: {excs}; {ctx()}')
+        return None
+    if resp is None:
+        r.bad(f'pair/caller-hang/{name}/{suffix}', f'the answer to {name} was emitted but its caller still waits; {ctx()}')
+        return None
+    r.ev('own_opcode_checks')
+    if resp.command_opcode != op:
+        r.bad(f'pair/foreign-response/{name}/{suffix}', f'caller of {name} was handed a response for {resp.command_opcode:#06x}')
+    return mine[0][1], mine[0][3], mine[0][0]
+
+
+def before_nul(b):
+    return b[:b.index(0)] if 0 in b else b
+
+
+async def pair_case(case, r: R):
+    from vlib import rig as vrig
+    rng = random.Random(case['seed'] ^ 0x9A12)
+    vrig.seed_entropy(case['seed'])
+    delay = rng.choice([0, 0, 1, 3])
+    rg = vrig.Rig(3, seed=case['seed'], max_delay=delay, classic=True)
+    await rg.power_on()
+    connected = rng.random() < 0.3
+    if connected:
+        await rg.connect_classic(1, 0)
+    await rg.quiesce()
+    r.ev('pair_cases')
+    addr0 = bytes(reversed(bytes.fromhex(rg.addresses[0].replace(':', ''))))
+    trail = []
+    known = {}       # what the controller is known to hold (independent ledger): 'name', 'sfc', 'le_host', 'ddl'
+
+    def ctx():
+        return f'history on device 0 (pipe delay<={delay}, BR/EDR connection to device 1: {connected}): {trail[-6:]}'
+
+    variants = name_variants(rng)
+    steps = case['steps']
+    for s in range(steps):
+        pick = rng.random()
+        if pick < 0.45 or (s == 0 and case.get('name_first')):
+            label, param = variants[(case['seed'] + s * 7 + rng.randrange(3)) % len(variants)]
+            trail.append(f'Write_Local_Name[{label}]')
+            res = await pair_issue(r, rg, 0, 'Write_Local_Name', param, 'write', ctx)
+            if res is None or res == 'skip':
+                break
+            r.ev('pair_unusual_writes')
+            r.ev('pair_names_written')
+            for cls in ('non-utf8', 'inner-nul', 'max-length', 'empty', 'short-parameter', 'random-octets'):
+                if cls in label:
+                    r.ev('pair_names_written_' + cls.replace('-', '_'))
+            r.sig('pair-name', label, delay, connected, s)
+            if res[1] == 0:
+                exp = expected_name(param)
+                known['name'] = exp
+            # (1) the same host reads the name back
+            trail.append('Read_Local_Name')
+            res = await pair_issue(r, rg, 0, 'Read_Local_Name', b'', 'read', ctx)
+            if res is None:
+                # the peer's procedure is still followed; then the history ends
+                pass
+            elif res != 'skip':
+                r.ev('pair_reads_after_unusual_write')
+                r.ev('pair_name_reads_answered')
+                rp = cc_return_parameters(rg, res[2])
+                if rp is not None and known.get('name') is not None and rp[:1] == b'\x00':
+                    r.ev('oracle_evals')
+                    r.ev('pair_value_checks')
+                    if len(rp) != 249 or before_nul(rp[1:]) != known['name']:
+                        r.bad('pair/value/Read_Local_Name', f'Read_Local_Name returned {len(rp) - 1} octets '
+                              f'{before_nul(rp[1:])[:40].hex()}..., the name written was {known["name"][:40].hex()}... '
+                              f'({len(known["name"])} octets); {ctx()}')
+            # (2) another device reads it over the air
+            reader = rng.choice([1, 1, 2])
+            trail.append(f'Remote_Name_Request by device {reader}')
+            mark = len(rg.hci_log)
+            n_exc = len(rg.exceptions)
+            res2 = await pair_issue(r, rg, reader, 'Remote_Name_Request', addr0 + b'\x02\x00\x00\x00', 'read', ctx)
+            if res2 not in (None, 'skip') and res2[0] == 'cs' and res2[1] == 0:
+                r.ev('pending_procedures_followed')
+                r.ev('pair_remote_name_requests_followed')
+
+                def done():
+                    return [rec for rec in rg.hci_log[mark:] if rec[1] == reader and rec[2] == 'c2h' and rec[3][0] == 4
+                            and rec[3][1] == 0x07]
+                await wait_for_event(rg, lambda: bool(done()))
+                await rg.quiesce()
+                evs = done()
+                r.ev('oracle_evals')
+                if len(evs) != 1:
+                    excs = [f'{w}: {e}' for w, e in rg.exceptions[n_exc:]][-2:]
+                    r.bad(f'pair/conclude/{"never" if not evs else "twice"}/Remote_Name_Request/after-unusual-name',
+                          f'Remote Name Request of device {reader} for device 0 was accepted as pending; {len(evs)} Remote Name '
+                          f'Request Complete events within T_v; exceptions in the stack: {excs}; {ctx()}')
+                else:
+                    r.ev('pair_remote_name_requests_concluded')
+                    ev = evs[0][3]
+                    if ev[3] == 0 and known.get('name') is not None:
+                        r.ev('oracle_evals')
+                        r.ev('pair_value_checks')
+                        if ev[4:10] != addr0 or before_nul(ev[10:]) != known['name']:
+                            r.bad('pair/value/Remote_Name_Request', f'Remote Name Request Complete carries address '
+                                  f'{ev[4:10].hex()} name {before_nul(ev[10:])[:40].hex()}..., the name written was '
+                                  f'{known["name"][:40].hex()}...; {ctx()}')
+            if res is None or res2 is None:
+                break
+        elif pick < 0.55:
+            # advertising / scan response data with arbitrary octets, read by a scanning peer
+            adv = bytes([rng.choice([0, 1, 31, 31, rng.randrange(32)])]) + field_octets(rng, 31)
+            rsp = bytes([rng.choice([0, 31, rng.randrange(32)])]) + field_octets(rng, 31)
+            seq = [(0, 'LE_Set_Advertising_Parameters', struct.pack('<HHBBB6sBB', 0x0800, 0x0800, rng.choice([0, 2, 3]), 0, 0,
+                                                                    bytes(6), 7, 0), 'write'),
+                   (0, 'LE_Set_Advertising_Data', adv, 'write'),
+                   (0, 'LE_Set_Scan_Response_Data', rsp, 'write'),
+                   (1, 'LE_Set_Scan_Parameters', struct.pack('<BHHBB', 1, 0x10, 0x10, 0, 0), 'later'),
+                   (1, 'LE_Set_Scan_Enable', b'\x01\x00', 'later'),
+                   (0, 'LE_Set_Advertising_Enable', b'\x01', 'read')]
+            trail.append(f'advertising data {adv[:6].hex()}.. scan response {rsp[:6].hex()}..')
+            ok = True
+            for dev, name, params, role in seq:
+                res = await pair_issue(r, rg, dev, name, params, role, ctx)
+                ok = ok and res is not None
+            r.ev('pair_unusual_writes', 2)
+            await asyncio.sleep(3.0)
+            try:
+                await rg.quiesce(max_turns=5000)
+            except vloop.Hang:
+                r.ev('no_quiescence_after_command')
+            for dev, name, params, role in ((0, 'LE_Set_Advertising_Enable', b'\x00', 'read'), (1, 'LE_Set_Scan_Enable', b'\x00\x00', 'later')):
+                res = await pair_issue(r, rg, dev, name, params, role, ctx)
+                ok = ok and res is not None
+                if res not in (None, 'skip') and role == 'read':
+                    r.ev('pair_reads_after_unusual_write')
+            r.ev('pair_advertising_data_read_by_scanner')
+            r.sig('pair-adv', adv[0], rsp[0], delay)
+            if not ok:
+                break
+        else:
+            w, sizes, reads = PAIRS[(case['seed'] * 3 + s * 5 + rng.randrange(len(PAIRS))) % len(PAIRS)]
+            params = b''.join(field_octets(rng, n) for n in sizes)
+            trail.append(f'{w}[{params[:10].hex()}{".." if len(params) > 10 else ""}]')
+            res = await pair_issue(r, rg, 0, w, params, 'write', ctx)
+            if res is None:
+                break
+            if res != 'skip':
+                r.ev('pair_unusual_writes')
+                r.sig('pair', w, params[:8], delay)
+                accepted = res[0] == 'cc' and res[1] == 0
+                if w == 'Write_Synchronous_Flow_Control_Enable' and accepted and params[0] in (0, 1):
+                    known['sfc'] = params[0]
+                if w == 'Write_LE_Host_Support' and accepted and params[0] in (0, 1):
+                    known['le_host'] = params[0]
+                if w == 'LE_Write_Suggested_Default_Data_Length' and accepted:
+                    o, t = struct.unpack('<HH', params)
+                    if 0x1B <= o <= 0xFB and 0x148 <= t <= 0x4290:
+                        known['ddl'] = params
+                    else:
+                        known.pop('ddl', None)
+            stop = False
+            for rname, rparams in reads:
+                if callable(rparams):
+                    rparams = rparams(rng)
+                trail.append(rname)
+                res = await pair_issue(r, rg, 0, rname, rparams, 'read', ctx)
+                if res is None:
+                    stop = True
+                    break
+                if res == 'skip':
+                    continue
+                r.ev('pair_reads_after_unusual_write')
+                rp = cc_return_parameters(rg, res[2])
+                want = None
+                if rname == 'Read_Synchronous_Flow_Control_Enable' and 'sfc' in known:
+                    want = bytes([0, known['sfc']])
+                elif rname == 'Read_LE_Host_Support' and 'le_host' in known:
+                    want = bytes([0, known['le_host']])
+                    rp = rp[:2] if rp is not None else rp      # (the second octet, Simultaneous LE Host, is unused)
+                elif rname == 'LE_Read_Suggested_Default_Data_Length' and 'ddl' in known:
+                    want = b'\x00' + known['ddl']
+                if want is not None and rp is not None:
+                    r.ev('oracle_evals')
+                    r.ev('pair_value_checks')
+                    if rp != want:
+                        r.bad(f'pair/value/{rname}', f'{rname} returned {rp.hex()}, expected {want.hex()} after {trail[-4:]}; {ctx()}')
+            if stop:
+                break
+    # later commands from the same host are served
+    for name in ('Read_BD_ADDR', 'LE_Rand'):
+        res = await pair_issue(r, rg, 0, name, b'', 'later', ctx)
+        if res not in (None, 'skip'):
+            r.ev('pair_later_commands_answered')
+    for where, ex in rg.exceptions:
+        if where.startswith('c2h'):
+            r.ev('host_side_exceptions_ignored')      # how a host digests what it reads (a name, a report) is not C03's
+            continue
+        r.ev('pair_exceptions_in_controller')
+    r.sched.add(rg.schedule_signature)
+    r.evals()
+    r.sample = {'kind': 'pair', 'history': trail[:12], 'delay': delay}
+
+
 def run_case(case, r: R):
     k = case['kind']
+    if k == 'hostfault':
+        return hostfault_case(case, r)
+    if k == 'hostreset':
+        return hostreset_case(case, r)
+    if k == 'pair':
+        return pair_case(case, r)
     if k == 'sweep':
         return sweep(case, r)
     if k == 'sweep-unknown':
@@ -2378,7 +3112,10 @@ LEVEL_TEXT = ('Offline checkers over the tapped HCI log: exactly-one-reply per c
               'advertising / scanning / connection / ISO commands in states where a precondition is missing (set without '
               'address or parameters, removed, enabled twice, nothing pending), and procedure histories (establish, tear '
               'down, establish again, ACL lost before completion) for CIS, LE connection creation and feature reads issued by '
-              'either role with one capability bit removed on either controller. Sampling of parameters, '
+              'either role with one capability bit removed on either controller; failing hand-overs of a command (sink or snooper '
+              'raises, packet lost) at positions spread over histories of 1-16 concurrent callers, Host.reset() by one task while '
+              'others have commands outstanding, and write/read command pairs with unusual but legal parameter octets (local '
+              'name read back by the host and by another device over the link). Sampling of parameters, '
               'histories and schedules; not proof.')
 LEVEL_NOTE = ('Trusted: vlib/ref_hci.py generator/encoder (from C01), the event parser and PROCEDURES table in '
               'checks/c03.py, rig taps, virtual-time loop.')
